@@ -1079,3 +1079,9 @@ mod test {
         server.reset();
     }
 }
+
+#[cfg(kani)]
+mod verif_kani {
+    use super::*;
+    include!(concat!(env!("LIBTW2_VERIF_HARNESS"), "/net_connection7.rs"));
+}
